@@ -99,7 +99,7 @@ def gen_case(rng, ndim=None, inner=None, outer=None, steady=None, const_mat=None
     return Case(ndim=ndim, r=r, t=t, h=h, nr=nr, nt=nt, nz=nz, inner=inner, outer=outer, steady=steady,
                 times=times, T0=T0, T0field=T0field, inner_data=idata, inner_data2=idata2,
                 outer_data=odata, outer_data2=odata2, mat_T=mat_T, mat_k=mat_k, mat_a=mat_a,
-                film=film, substep=rng.choice([1, 1, 2, 3]), plane=None, angle=0.0)
+                film=film, substep=rng.choice([1, 1, 2, 3]), plane=None, angle=0.0, bc_nt=nt)
 
 
 def build(case):
@@ -113,13 +113,15 @@ def build(case):
         tube.make_2D(plane)
     tube.set_times(np.array(case.times))
 
+    bc_nt = getattr(case, "bc_nt", None) or case.nt
+
     def mk(kind, rad, data, data2):
         if kind == "ins":
             return None
         if kind == "fix":
-            return receiver.FixedTempBC(rad, case.h, case.nt, case.nz, np.array(case.times), data)
+            return receiver.FixedTempBC(rad, case.h, bc_nt, case.nz, np.array(case.times), data)
         if kind == "flux":
-            return receiver.HeatFluxBC(rad, case.h, case.nt, case.nz, np.array(case.times), data)
+            return receiver.HeatFluxBC(rad, case.h, bc_nt, case.nz, np.array(case.times), data)
         if kind == "conv":
             return receiver.ConvectiveBC(rad, case.h, case.nz, np.array(case.times), data)
         if kind == "film":
@@ -277,10 +279,16 @@ def capture_step(case, prob, T_n, time, dt):
     receiver, thermal, materials = mods()
     with Capture(thermal) as cap:
         Tnew = prob.solve_step(np.array(T_n, copy=True), time, dt)
+    if not cap.calls:
+        raise NoSolve("solve_step returned without handing any system to the linear solver")
     A, res = cap.calls[0]
     A = np.asarray(A.todense())
     b = A.dot(np.array(T_n, dtype=float).flatten()) - res
     return A, b, np.array(Tnew)
+
+
+class NoSolve(Exception):
+    pass
 
 
 def newton_consistency(case, prob, T_start, time, dt):
@@ -294,6 +302,8 @@ def newton_consistency(case, prob, T_start, time, dt):
     with Capture(thermal) as cap:
         Tnew = prob.solve_step(np.array(T_start, copy=True), time, dt)
     fails = []
+    if not cap.calls:
+        return ["solve_step returned without handing any system to the linear solver"]
     A0, res0 = cap.calls[0]
     A0 = np.asarray(A0.todense())
     T0 = np.array(T_start, dtype=float).flatten()
@@ -369,6 +379,9 @@ def matrix_correspondence(ctx, cases, label):
             fails = newton_consistency(c, prob, Tr, time, dt)
             if fails:
                 incons.append((c, fails))
+        except NoSolve as e:
+            incons.append((c, [str(e)]))
+            continue
         except RuntimeError as e:
             # a step that does not converge raises (C17's business)
             crashed.append((c, repr(e)))
